@@ -329,6 +329,16 @@ def pair_sig(cls, n1, n2):
     return "C04 %s: bind names %r and %r used in one statement do not both receive their own value" % (cls, n1, n2)
 
 
+def pair_violation_sig(cls, n1, n2, mode, le, probs):
+    """a non-colliding pair that fails only by one and the same exception is the root cause of that exception
+    (same signature as in the shape family), not a property of the pair"""
+    kinds = {k for k, _ in probs}
+    if cls == "name-pair" and len(kinds) == 1 and next(iter(kinds)).startswith("error "):
+        need = escaped(n1) != n1 or escaped(n2) != n2
+        return shape_sig(next(iter(kinds)), "pair", dict(ns=1 if need else 0, le=le, mode=mode))
+    return pair_sig(cls, n1, n2)
+
+
 def shape_sig(kind, shape, cfg):
     """errors are keyed by where they are raised and by the configuration features that matter (not by shape);
     wrong values by shape + configuration of the first (= simplest) failing case"""
@@ -379,7 +389,7 @@ def run_shard(shard, tier, rec):
                             rec.count("colliding_pair_refused_by_CompileError")
                             probs = []
                         if probs:
-                            rec.violation(pair_sig(cls, n1, n2), "; ".join("%s: %s" % p for p in probs), dict(kind="pair", n1=n1, n2=n2, mode=mode, le=le), kind=cls)
+                            rec.violation(pair_violation_sig(cls, n1, n2, mode, le, probs), "; ".join("%s: %s" % p for p in probs), dict(kind="pair", n1=n1, n2=n2, mode=mode, le=le), kind=(cls, le is not None))
     finally:
         E.close()
 
@@ -400,7 +410,7 @@ def replay(case):
             probs, _ = run_case(E, builder, ref_texts, is_dml, ordered, "pair")
             cls = "escaped-name-collision" if escaped(n1) == escaped(n2) else "name-pair"
             if probs:
-                out.append((pair_sig(cls, n1, n2), "; ".join("%s: %s" % p for p in probs)))
+                out.append((pair_violation_sig(cls, n1, n2, mode, le, probs), "; ".join("%s: %s" % p for p in probs)))
     finally:
         E.close()
     return out
